@@ -38,6 +38,17 @@ for _sub, _names in {
         OP_WITNESS[_n] = _sub
 
 
+OP_WITNESS2 = {}
+for _sub, _names in {
+    "Zip2": ["Zip2", "ZipWith1", "ZipWith", "zipInnerSubscription", "Zip3", "ZipWith2", "Zip4", "ZipWith3", "Zip5", "ZipWith4", "Zip6", "ZipWith5"],
+    "CombineLatest2": ["CombineLatest2", "CombineLatestWith1", "CombineLatestWith"],
+    "MergeWith1": ["MergeWith1", "MergeAll", "Merge", "MergeWith"],
+    "TakeUntil": ["TakeUntil"], "SkipUntil": ["SkipUntil"],
+}.items():
+    for _n in _names:
+        OP_WITNESS2[_n] = _sub
+
+
 def scratch_gowork(repo):
     d = tempfile.mkdtemp(prefix="rovc-replay-")
     out = []
@@ -165,6 +176,15 @@ def attempt(pid, ob, res, path, repo, root, seed, gen=None):
                 src = open(os.path.join(root, "witness", "operator_witness_test.go")).read()
                 out, fails = run_overlay(repo, {"zz_rovc_opwitness_test.go": src}, "TestWitnessOperators/" + sub + "$", timeout=60)
                 rec["replay_kind"] = "operator witness %s: hand-written reference definition vs the real operator on every script up to length 4 over {0,1,2} x {complete,error,none}" % sub
+                rec["replay_output"] = out[-6000:]
+                if fails:
+                    found = True
+                    rec["failing_input"] = fails[:5]
+            sub2 = OP_WITNESS2.get(base)
+            if sub2 and not found:
+                src = open(os.path.join(root, "witness", "operator_witness_test.go")).read()
+                out, fails = run_overlay(repo, {"zz_rovc_opwitness_test.go": src}, "TestWitnessTwoSourceOperators/" + sub2 + "$", timeout=90)
+                rec["replay_kind"] = "two-source witness %s: sequential definition vs the real operator on every interleaving of the notifications of two subjects up to length 5" % sub2
                 rec["replay_output"] = out[-6000:]
                 if fails:
                     found = True
